@@ -603,6 +603,49 @@ impl Prop for C02 {
                 for k in 0..b.len() { let mut t = b[..k].to_vec(); if k >= 18 && rng.bool() { let l = k as u16; t[16..18].copy_from_slice(&l.to_be_bytes()); } out.push(line(&cfg, &t)); }
             }
         }
+        // length-consistent UPDATEs whose AS_PATH / AS4_PATH value is whole segments followed by 1..3 STRAY octets (and the
+        // other near-misses of the segment grammar: count octet one too large / too small, empty value, a lone type octet),
+        // in both AS-number widths: the validator that accepts the message and the iterators `hops()` / `segments()` /
+        // `to_owned()` read the same octets by different code (round-7 seed: a single-segment fast path `len / size == count`
+        // in the validator; the walk of the returned path panicked)
+        for four in [true, false] {
+            let w = if four { 4usize } else { 2 };
+            let cfg = if four { "4" } else { "2" };
+            for code in [2u8, 17] {
+                let sz = if code == 17 { 4 } else { w };
+                for nseg in 1..=3usize {
+                    for stray in 0..=4usize {
+                        for tweak in 0..3u8 {
+                            let mut v: Vec<u8> = Vec::new();
+                            for k in 0..nseg {
+                                let n = 1 + (k + stray) % 3;
+                                v.push(if k % 2 == 0 { 2 } else { 1 });
+                                v.push(match tweak { 1 if k + 1 == nseg => n as u8 + 1, 2 if k + 1 == nseg => (n as u8).saturating_sub(1), _ => n as u8 });
+                                v.extend(rng.bytes(n * sz));
+                            }
+                            v.extend(rng.bytes(stray));
+                            let mut attrs = vec![0x40u8, 1, 1, 0];
+                            attrs.extend([if code == 17 { 0xc0 } else { 0x40 }, code, v.len() as u8]);
+                            attrs.extend(&v);
+                            attrs.extend([0x40, 3, 4, 10, 0, 0, 1]);
+                            let total = 19 + 2 + 2 + attrs.len() + 2;
+                            let mut b = header(total, 2);
+                            b.extend([0, 0]); b.extend((attrs.len() as u16).to_be_bytes()); b.extend(&attrs); b.extend([8, 10]);
+                            out.push(line(cfg, &b));
+                        }
+                    }
+                }
+                for v in [vec![], vec![2u8], vec![2u8, 0], vec![2u8, 0, 9], vec![1u8, 1]] {
+                    let mut attrs = vec![0x40u8, 1, 1, 0];
+                    attrs.extend([if code == 17 { 0xc0 } else { 0x40 }, code, v.len() as u8]);
+                    attrs.extend(&v);
+                    let total = 19 + 2 + 2 + attrs.len();
+                    let mut b = header(total, 2);
+                    b.extend([0, 0]); b.extend((attrs.len() as u16).to_be_bytes()); b.extend(&attrs);
+                    out.push(line(cfg, &b));
+                }
+            }
+        }
         // framed messages far beyond 4096 octets: a valid header whose length field is the number of octets,
         // filled with conventional /32 announcements (some with a tail that does not parse)
         for (i, total) in [4097usize, 9000, 30000, 65535, 65535].into_iter().enumerate() {
